@@ -263,9 +263,9 @@ def run(ctx: common.Ctx):
             ctx.broken = [b for b in ctx.broken if not b.startswith("lean-build:PtProofs.C18")]
         else:
             ctx.coverage["unexplained_build_errors"] = rest
-    n_graphs, n_mut = (600, 6) if ctx.thorough else (150, 3)
+    n_graphs, n_mut = (1500, 6) if ctx.thorough else (150, 3)
     pickles, keys, node_keys = correspondence(ctx, t, ctx.seed, n_graphs, n_mut)
-    n_x = 300 if ctx.thorough else 60
+    n_x = 400 if ctx.thorough else 60
     seeds = [1, 2, 3, 4, 5, 6, 7, 12345] if ctx.thorough else [1, 7, 4242]
     cross_process(ctx, ctx.seed, min(n_x, n_graphs), pickles, keys, node_keys, seeds)
     ctx.broken = sorted(set(ctx.broken))[:40]
